@@ -15,8 +15,10 @@ import (
 	"fmt"
 	"os"
 	"path/filepath"
+	"regexp"
 	"sort"
 	"strings"
+	"sync"
 	"time"
 
 	"verif/harness/mbt"
@@ -94,11 +96,16 @@ func signature(h []irhist.Call, with, without irhist.Result) string {
 	case with.Panicked && without.Panicked:
 		return "C14|observed history|panic class differs|" + irhist.PanicClass(with.Msg) + " vs " + irhist.PanicClass(without.Msg)
 	}
+	if what := staleTypeOf(with, without); what != "" {
+		return "C14|observe-edit-print|stale cached type|" + what
+	}
 	return "C14|observed history|text differs|observers " + strings.Join(allObservers(h), "+")
 }
 
 type stats struct {
 	transitions, withObs, nontrivial, divergences, obsPanics int
+	mdRelabelled                                             int
+	mdExample                                                string
 	known                                                    map[string]int
 }
 
@@ -119,15 +126,22 @@ func judge(rep *mbt.Report, tr irhist.Transition, st *stats, source string) {
 	without := irhist.Replay(h, false)
 	st.obsPanics += with.ObsPanics
 	c := map[string]interface{}{"hist": h, "want": tr.Want, "source": source}
+	if irhist.SameOutcome(with, without) && !irhist.SameOutcomeLiteral(with, without) {
+		// same module, metadata definitions labelled differently (see notes/C14.md)
+		st.mdRelabelled++
+		if st.mdExample == "" {
+			st.mdExample = key
+		}
+	}
 	if !irhist.SameOutcome(with, without) {
 		rep.Fail(mbt.Failure{Signature: signature(h, with, without),
-			What: fmt.Sprintf("history %s: with observers -> %s; without observers -> %s", key, with.Outcome(), without.Outcome()),
+			What: fmt.Sprintf("history %s: with observers -> %s; without observers -> %s%s", key, with.Outcome(), without.Outcome(), firstTextDiff(with, without)),
 			Case: c})
 	}
 	// printing twice in a row yields identical text
 	if with.EarlyMsg == "" {
 		again := irhist.Result{Text: with.AgainText, Panicked: with.AgainPanicked, Msg: with.AgainMsg}
-		if !irhist.SameOutcome(with, again) {
+		if !irhist.SameOutcomeLiteral(with, again) {
 			rep.Fail(mbt.Failure{Signature: "C14|print twice|" + map[bool]string{true: "panic", false: "text differs"}[with.Panicked != again.Panicked] + "|second print after " + lastOp(h),
 				What: fmt.Sprintf("history %s: first print -> %s; second print -> %s", key, with.Outcome(), again.Outcome()),
 				Case: c})
@@ -149,6 +163,53 @@ func judge(rep *mbt.Report, tr irhist.Transition, st *stats, source string) {
 	}
 }
 
+var reFuncPtr = regexp.MustCompile(`\)( addrspace\(\d+\))?\*$`)
+var reUseLine = regexp.MustCompile(`@h\.use\((.*) ([%@][\w.]+)\)`)
+
+// staleTypeOf classifies a text difference that consists in the type shown for a typed
+// operand: "type of alloca operand", "type of global operand", "type of function operand".
+func staleTypeOf(a, b irhist.Result) string {
+	la, lb := strings.Split(a.Text, "\n"), strings.Split(b.Text, "\n")
+	if len(la) != len(lb) {
+		return ""
+	}
+	what := ""
+	for i := range la {
+		if la[i] == lb[i] {
+			continue
+		}
+		ma, mb := reUseLine.FindStringSubmatch(la[i]), reUseLine.FindStringSubmatch(lb[i])
+		if ma == nil || mb == nil || ma[2] != mb[2] {
+			return ""
+		}
+		k := "type of global operand"
+		if strings.HasPrefix(ma[2], "%") {
+			k = "type of alloca operand"
+		} else if reFuncPtr.MatchString(ma[1]) {
+			k = "type of function operand"
+		}
+		if what != "" && what != k {
+			return ""
+		}
+		what = k
+	}
+	return what
+}
+
+// firstTextDiff shows the first line on which two printed texts differ.
+func firstTextDiff(a, b irhist.Result) string {
+	if a.Panicked || b.Panicked || a.EarlyMsg != "" || b.EarlyMsg != "" {
+		return ""
+	}
+	la, lb := strings.Split(a.Text, "\n"), strings.Split(b.Text, "\n")
+	for i := 0; i < len(la) && i < len(lb); i++ {
+		if la[i] != lb[i] {
+			return fmt.Sprintf("; first differing line: %q vs %q", strings.TrimSpace(la[i]), strings.TrimSpace(lb[i]))
+		}
+	}
+	return ""
+}
+
 func lastOp(h []irhist.Call) string {
 	if len(h) == 0 {
 		return "nothing"
@@ -156,30 +217,50 @@ func lastOp(h []irhist.Call) string {
 	return h[len(h)-1].Op
 }
 
-// emitRun runs the transition generator with the given constants and judges every transition.
-func emitRun(rep *mbt.Report, label string, consts map[string]string, st *stats, timeout time.Duration) {
-	consts["ValidateOnPrint"] = "FALSE"
-	t := mbt.MustTLC(mbt.TLCOpts{Spec: "IRState", Cfg: "IRStateEmit.cfg", Consts: consts, Workers: 1, Timeout: timeout})
-	defer t.Cleanup()
-	if len(t.Violated) > 0 {
-		mbt.Infra("IRState (%s) with ValidateOnPrint = FALSE violates %v: specification error", label, t.Violated)
+// emission is one run of the transition generator.
+type emission struct {
+	label  string
+	consts map[string]string
+	t      *mbt.TLCResult
+}
+
+// emitAll runs the transition generator for every configuration (TLC processes in
+// parallel, one worker each) and then judges every transition, configuration by
+// configuration.
+func emitAll(rep *mbt.Report, ems []*emission, st *stats, timeout time.Duration) {
+	var wg sync.WaitGroup
+	for _, e := range ems {
+		e.consts["ValidateOnPrint"] = "FALSE"
+		wg.Add(1)
+		go func(e *emission) {
+			defer wg.Done()
+			e.t = mbt.MustTLC(mbt.TLCOpts{Spec: "IRState", Cfg: "IRStateEmit.cfg", Consts: e.consts, Workers: 1, Timeout: timeout})
+		}(e)
 	}
-	rep.AddTLC(t)
-	trs, err := mbt.ReadNDJSON[irhist.Transition](filepath.Join(t.Dir, "transitions.ndjson"))
-	if err != nil {
-		mbt.Infra("transitions of %s: %v", label, err)
+	wg.Wait()
+	for _, e := range ems {
+		t, label := e.t, e.label
+		if len(t.Violated) > 0 {
+			mbt.Infra("IRState (%s) with ValidateOnPrint = FALSE violates %v: specification error", label, t.Violated)
+		}
+		rep.AddTLC(t)
+		trs, err := mbt.ReadNDJSON[irhist.Transition](filepath.Join(t.Dir, "transitions.ndjson"))
+		if err != nil {
+			mbt.Infra("transitions of %s: %v", label, err)
+		}
+		if int64(len(trs)) != t.Generated-1 {
+			mbt.Infra("%s: TLC generated %d states but wrote %d transitions", label, t.Generated, len(trs))
+		}
+		before := st.transitions
+		for _, tr := range trs {
+			judge(rep, tr, st, label)
+		}
+		rep.TracesValidated += st.transitions - before
+		rep.Extra["transitions_"+label] = len(trs)
+		rep.Extra["tlc_wall_s_"+label] = t.Wall.Seconds()
+		rep.Extra["tlc_states_"+label] = t.Distinct
+		t.Cleanup()
 	}
-	if int64(len(trs)) != t.Generated-1 {
-		mbt.Infra("%s: TLC generated %d states but wrote %d transitions", label, t.Generated, len(trs))
-	}
-	before := st.transitions
-	for _, tr := range trs {
-		judge(rep, tr, st, label)
-	}
-	rep.TracesValidated += st.transitions - before
-	rep.Extra["transitions_"+label] = len(trs)
-	rep.Extra["tlc_wall_s_"+label] = t.Wall.Seconds()
-	rep.Extra["tlc_states_"+label] = t.Distinct
 }
 
 // Run is the C14 check.
@@ -214,6 +295,7 @@ func Run(tier, replay string) {
 	ai.Cleanup()
 
 	// (G) one test per explored transition of the model as required.
+	var ems []*emission
 	build := map[string]string{"MaxSrc": "0", "MaxCalls": "4"}
 	parse := map[string]string{"MaxSrc": "2", "MaxCalls": "3"}
 	// one function, everything unnamed: deeper histories over the local numbering
@@ -223,9 +305,9 @@ func Run(tier, replay string) {
 		parse["TermKinds"] = `{"ret", "invoke", "catchswitch"}`
 		locals["MaxCalls"] = "6"
 	}
-	emitRun(rep, "build", build, st, 25*time.Minute)
-	emitRun(rep, "parse", parse, st, 25*time.Minute)
-	emitRun(rep, "locals", locals, st, 25*time.Minute)
+	ems = append(ems, &emission{label: "build", consts: build})
+	ems = append(ems, &emission{label: "parse", consts: parse})
+	ems = append(ems, &emission{label: "locals", consts: locals})
 	// terminators and renames beyond the first alphabet, on functions only
 	wide := map[string]string{"MaxSrc": "0", "MaxCalls": "5", "MaxPerGroup": "0", "MaxParams": "0", "MaxBlocks": "1",
 		"NewNames": `{""}`, "SetNames": `{"y"}`, "InstRes": `{"value"}`,
@@ -234,7 +316,7 @@ func Run(tier, replay string) {
 		wide["MaxCalls"] = "6"
 		wide["MaxBlocks"] = "2"
 	}
-	emitRun(rep, "terminators", wide, st, 25*time.Minute)
+	ems = append(ems, &emission{label: "terminators", consts: wide})
 	// pure queries remembered (TrackQueries): histories "query, edit, print" -- Type() and Succs()
 	// fill the caches Typ / Successors, Retarget then changes what Succs() cached
 	queries := map[string]string{"MaxSrc": "0", "MaxCalls": "5", "MaxPerGroup": "0", "MaxParams": "0", "MaxBlocks": "2", "MaxInsts": "1",
@@ -244,7 +326,59 @@ func Run(tier, replay string) {
 		queries["MaxCalls"] = "6"
 		queries["TermKinds"] = `{"br", "invoke", "callbr", "catchswitch"}`
 	}
-	emitRun(rep, "queries", queries, st, 25*time.Minute)
+	ems = append(ems, &emission{label: "queries", consts: queries})
+	// metadata definitions: insert / remove / attach, print-edit-print over AssignMetadataIDs
+	metadata := map[string]string{"MaxSrc": "0", "MaxCalls": "6", "Groups": `{"globals"}`, "MaxParams": "0", "MaxBlocks": "1", "MaxInsts": "1",
+		"NewNames": `{""}`, "SetNames": `{"y"}`, "InstRes": `{"value"}`, "TermKinds": `{"ret"}`,
+		"MaxMd": "3", "MdAttach": "TRUE", "Observers": `{"PrintModule", "PrintFunc", "PrintBlock"}`}
+	// fields assigned after construction that a cached type depends on, and typed operands that
+	// show the cached type; pure queries remembered so that every observer precedes such edits
+	typesCfg := map[string]string{"MaxSrc": "0", "MaxCalls": "5", "Groups": `{"globals"}`, "MaxPerGroup": "2", "MaxParams": "0", "MaxBlocks": "1",
+		"NewNames": `{""}`, "SetNames": `{"y"}`, "InstRes": `{"value"}`, "TermKinds": `{"ret"}`,
+		"InstOps": `{"alloca", "use"}`, "RefTargets": `{"global", "func", "alloca"}`, "RefGlobals": "TRUE",
+		"FieldEdits": `{"GlobalAddrSpace", "GlobalContent", "FuncAddrSpace", "FuncVariadic", "AllocaAddrSpace", "AllocaElem"}`,
+		"TrackQueries": "TRUE", "StickyQueries": "TRUE"}
+	typesCfg["MaxCalls"] = "6"
+	if tier == "thorough" {
+		metadata["MaxCalls"] = "7"
+		typesCfg["MaxCalls"] = "7"
+	}
+	ems = append(ems, &emission{label: "metadata", consts: metadata})
+	ems = append(ems, &emission{label: "types", consts: typesCfg})
+	emitAll(rep, ems, st, 25*time.Minute)
+	// vacuity guards: plausible variants of the code that the model must reject
+	guard := func(label string, consts map[string]string, extra map[string]string, cfg string, want string) {
+		c := map[string]string{}
+		for k, v := range consts {
+			c[k] = v
+		}
+		for k, v := range extra {
+			c[k] = v
+		}
+		c["ValidateOnPrint"] = "FALSE"
+		if _, ok := extra["MaxCalls"]; !ok {
+			c["MaxCalls"] = "5"
+		}
+		t := mbt.MustTLC(mbt.TLCOpts{Spec: "IRState", Cfg: cfg, Consts: c, Workers: 1})
+		found := false
+		for _, v := range t.Violated {
+			if v == want || v == want+"Step" {
+				found = true
+			}
+		}
+		if !found {
+			mbt.Infra("vacuity guard %s: IRState does not violate %s (violated: %v)", label, want, t.Violated)
+		}
+		rep.Extra["guard_"+label] = want + " violated as expected after " + fmt.Sprint(t.Distinct) + " states"
+		t.Cleanup()
+	}
+	guard("lazy_type", typesCfg, map[string]string{"EagerType": "FALSE"}, "IRState.cfg", "ObserverTransparent")
+	guard("md_one_pass", metadata, map[string]string{"MdVariant": `"one-pass"`}, "IRState.cfg", "ObserverTransparent")
+	guard("md_literal_ids", metadata, nil, "IRStateMdLiteral.cfg", "ObserverTransparentLiteral")
+	if tier == "thorough" {
+		// InstAlloca.Type() as written by 141f39c (refresh on AddrSpace only): counterexample 7 calls deep
+		guard("alloca_refresh_addrspace_only", typesCfg, map[string]string{"AllocaRefresh": `"addrspace"`, "MaxCalls": "7"}, "IRState.cfg", "ObserverTransparent")
+	}
 
 	if tier == "thorough" {
 		// the object graph closed under all calls (no bound on the history), small structure
@@ -264,15 +398,19 @@ func Run(tier, replay string) {
 	rep.Extra["transitions_with_observer"] = st.withObs
 	rep.Extra["observer_calls_that_panicked_on_incomplete_ir"] = st.obsPanics
 	rep.Extra["unobserved_history_differs_from_required_numbering"] = st.divergences
+	rep.Extra["same_module_metadata_labelled_differently"] = st.mdRelabelled
+	if st.mdRelabelled > 0 {
+		rep.Note("%d histories print the same module with and without observers but label the metadata definitions differently (an ID stored by a print is kept by the next one), e.g. %s", st.mdRelabelled, st.mdExample)
+	}
 	if st.divergences > 0 {
 		rep.Note("%d histories print, without any observer, something else than the numbering IRState requires: judged by C08, not a C14 verdict", st.divergences)
 	}
 	rep.Exhaustive = true
-	rep.Explanation = "every transition of the five IRState configurations of this tier was emitted and replayed (no sampling)"
+	rep.Explanation = "every transition of the seven IRState configurations of this tier was emitted and replayed (no sampling)"
 	rep.Assumptions = []string{
 		"the replay (harness/props/irhist) maps each IRState action to the public API call it stands for; instructions are add/call/store/fence, terminators ret/br/invoke/callbr/catchswitch with placeholder operands",
 		"Type(), Ident(), Operands(), Succs() are called on every object of the module at the observer's position",
-		"outcomes are compared as the full String() text, or the class of the panic message",
+		"outcomes are compared as the full String() text up to a consistent renaming of metadata IDs (a print keeps the IDs it finds, C17), or the class of the panic message; a second print must equal the first exactly",
 	}
 	rep.Finish()
 }
